@@ -19,10 +19,20 @@ pub mod p_c01;
 pub mod p_c03;
 #[cfg(all(kani, any(feature = "c04", feature = "c05")))]
 pub mod p_c04;
+#[cfg(all(kani, feature = "c06"))]
+pub mod p_c06;
+#[cfg(all(kani, feature = "c08"))]
+pub mod p_c08;
+#[cfg(all(kani, any(feature = "c10", feature = "c11")))]
+pub mod p_c10;
 #[cfg(all(kani, feature = "c12"))]
 pub mod p_c12;
+#[cfg(all(kani, feature = "c13"))]
+pub mod p_c13;
 #[cfg(all(kani, feature = "c14"))]
 pub mod p_c14;
+#[cfg(all(kani, feature = "c15"))]
+pub mod p_c15;
 #[cfg(all(kani, feature = "c16"))]
 pub mod p_c16;
 #[cfg(all(kani, feature = "c18"))]
